@@ -9,7 +9,7 @@ import random
 TYPE_ORDER = {"internal": 0, "sequence_control": 1, "ks": 2, "ts": 3, "cc": 4, "pc": 5, "off": 6, "on": 7}
 KEYS = ["C", "G", "D", "A", "E", "B", "F#", "C#", "F", "Bb", "Eb", "Ab", "Db", "Gb", "Cb"]
 SIGS = [(2, 4), (3, 4), (4, 4), (5, 4), (6, 8), (2, 2), (7, 8), (12, 8), (3, 8), (9, 8)]
-DEFAULT_NOTE_VALUES = [96, 48, 24, 12, 6, 3, 64, 32, 16, 8, 4, 2, 144, 72, 36, 18, 9]
+DEFAULT_NOTE_VALUES = [24, 12, 6, 16, 8, 4, 36, 18, 9]
 DEFAULT_STEPS_TOK = [2, 3, 4, 6, 8, 12, 16, 24]
 
 
